@@ -998,3 +998,53 @@ func TestC13(t *testing.T) {
 		vt.Run(t, c13Rec, c, checkC13)
 	})
 }
+
+// TestC13Large: trips with thousands to tens of thousands of stop time updates (beyond 65,536), copied and then edited in ONE
+// stop time update - the last, the first or any: whatever hashes long lists in blocks, in parallel or through fixed buffers must
+// still see every update. Every size runs in every tier.
+func TestC13Large(t *testing.T) {
+	for _, n := range []int{9000, 65537, 70001} {
+		n := n
+		t.Run(fmt.Sprint(n), func(outer *testing.T) {
+			fail := ""
+			defer func() {
+				if fail != "" {
+					outer.Fatalf("%s", fail)
+				}
+			}()
+			rapid.Check(outer, func(t *rapid.T) {
+				c := CaseC13{IsVehicle: false, VarA: g13Variant(t, "a"), VarB: g13Variant(t, "b")}
+				c.Env = genEnv(t)
+				c.TripA = g13Trip(t)
+				tmpl := []H13STU{g13STU(t), g13STU(t), g13STU(t)}
+				for i := len(c.TripA.STUs); i < n; i++ {
+					u := tmpl[i%3]
+					s := uint32(i)
+					u.Seq = &s
+					c.TripA.STUs = append(c.TripA.STUs, u)
+				}
+				c.TripB = cloneVia(c.TripA)
+				c.Kind = "copy"
+				if rapid.IntRange(0, 5).Draw(t, "edit?") != 0 {
+					var stuEdits []tripEdit
+					for _, e := range c13TripEdits {
+						if strings.HasPrefix(e.name, "stu-") || strings.HasPrefix(e.name, "event-") || e.name == "arr-dep-swap" {
+							stuEdits = append(stuEdits, e)
+						}
+					}
+					e := rapid.SampledFrom(stuEdits).Draw(t, "tripEdit")
+					if e.f(t, c.TripB) {
+						c.Kind = "edit:trip:" + e.name
+					}
+				}
+				c13Rec.Eval(fmt.Sprintf("large:stop-time-updates>=%d", n), "large:"+c.Kind)
+				c13Rec.NontrivialCase(vt.Fingerprint([]any{n, c.Kind, c.VarA, c.VarB, len(c.TripB.STUs)}), func() any {
+					return map[string]any{"stop_time_updates": n, "kind": c.Kind}
+				})
+				if msg := vt.Try(c13Rec, c, checkC13); msg != "" && fail == "" {
+					fail = msg
+				}
+			})
+		})
+	}
+}
